@@ -63,7 +63,14 @@ def preexisting():
             for f in o._fields:
                 if hasattr(o, f):
                     todo.append((f"{path}.{f}", getattr(o, f)))
-        elif isinstance(o, (types.FunctionType, types.BuiltinFunctionType, str, int, float, bytes, bool, type(None))):
+        elif isinstance(o, types.FunctionType):
+            # mutable default arguments live as long as the function
+            for i, d in enumerate(o.__defaults__ or ()):
+                todo.append((f"{path}.__defaults__[{i}]", d))
+            for k, d in (o.__kwdefaults__ or {}).items():
+                todo.append((f"{path}.__kwdefaults__[{k!r}]", d))
+            continue
+        elif isinstance(o, (types.BuiltinFunctionType, str, int, float, bytes, bool, type(None))):
             continue
         else:
             mod = getattr(type(o), "__module__", "") or ""
@@ -77,6 +84,28 @@ def preexisting():
                         todo.append((f"{path}.{k}", v))
     _cache = ids
     return ids
+
+
+def hidden_state():
+    """callables of the package that are not plain functions/classes: memoising wrappers and
+    the like keep state between calls.  -> [(where, what)]"""
+    import functools
+    extract.repo_module("oneliner")
+    out = []
+    for name, mod in list(sys.modules.items()):
+        if not (name == "oneliner" or name.startswith("oneliner.")):
+            continue
+        items = [(f"{name}.{k}", v) for k, v in vars(mod).items()]
+        for k, v in list(vars(mod).items()):
+            if isinstance(v, type) and (getattr(v, "__module__", "") or "").startswith("oneliner"):
+                items += [(f"{name}.{k}.{a}", b) for a, b in vars(v).items()]
+        for where, v in items:
+            f = v.__func__ if isinstance(v, (classmethod, staticmethod)) else v
+            if hasattr(f, "cache_info") or hasattr(f, "cache_clear") or type(f).__name__ in ("_lru_cache_wrapper", "cached_property"):
+                out.append((where, f"memoising wrapper {type(f).__name__}: results depend on earlier calls"))
+            elif isinstance(f, functools.partial) and (getattr(f.func, "__module__", "") or "").startswith("oneliner"):
+                out.append((where, "functools.partial over a package function (bound arguments outlive calls)"))
+    return sorted(set(out))
 
 
 def violations(ctx):
